@@ -1,6 +1,7 @@
 package verifsim
 
 import (
+	"strings"
 	"bytes"
 	"context"
 	"encoding/binary"
@@ -131,6 +132,12 @@ type Cluster struct {
 	// Java exception class to answer with, "" to execute, or "DROP" to cut the connection without answering.
 	// It is called with the cluster lock held and must not call back into the cluster.
 	ActionHook func(rs *RS, r *Region, op string, row []byte) string
+	// the master (MasterService for the admin client) lives at MasterAddr; ZooKeeper names it for the "master" resource
+	MasterAddr  string
+	ProcPolls   int    // polls answered RUNNING before a procedure is FINISHED
+	ProcOutcome string // "" = success, "exception" = finished with an exception
+	procs       map[uint64]int
+	nextProc    uint64
 	// Mangle, if set, may rewrite a response (message and cellblock) just before it is sent: the means to make an otherwise
 	// healthy server answer one request with something malformed.
 	Mangle func(rs *RS, req *Request, resp *Response)
@@ -473,6 +480,9 @@ func (c *Cluster) ZKLocate(resource string) (string, error) {
 	if c.ZKErr != nil {
 		return "", c.ZKErr
 	}
+	if strings.Contains(resource, "master") && c.MasterAddr != "" {
+		return c.MasterAddr, nil
+	}
 	return c.MetaAddr, nil
 }
 
@@ -614,8 +624,84 @@ func (c *Cluster) serve(rs *RS, sc *ServerConn, req *Request, name []byte) {
 	case *pb.ScanRequest:
 		c.serveScan(rs, sc, req, p, name)
 	default:
-		c.sendExc(sc, req, ExcDoNotRetry)
+		c.serveMaster(rs, sc, req)
 	}
+}
+
+// serveMaster: the few MasterService calls of the admin client. Table operations are procedures: the answer carries a
+// procedure id; getProcedureResult says RUNNING for ProcPolls polls, then FINISHED (or what ProcOutcome says).
+func (c *Cluster) serveMaster(rs *RS, sc *ServerConn, req *Request) {
+	c.mu.Lock()
+	isMaster := rs.Addr == c.MasterAddr
+	c.mu.Unlock()
+	if !isMaster {
+		c.sendExc(sc, req, "org.apache.hadoop.hbase.ipc.UnknownServiceException")
+		return
+	}
+	newProc := func() uint64 {
+		c.mu.Lock()
+		defer c.mu.Unlock()
+		c.nextProc++
+		if c.procs == nil {
+			c.procs = map[uint64]int{}
+		}
+		c.procs[c.nextProc] = 0
+		return c.nextProc
+	}
+	var msg proto.Message
+	switch p := req.Param.(type) {
+	case *pb.GetClusterStatusRequest:
+		msg = &pb.GetClusterStatusResponse{ClusterStatus: &pb.ClusterStatus{}}
+	case *pb.CreateTableRequest:
+		msg = &pb.CreateTableResponse{ProcId: proto.Uint64(newProc())}
+	case *pb.DeleteTableRequest:
+		msg = &pb.DeleteTableResponse{ProcId: proto.Uint64(newProc())}
+	case *pb.EnableTableRequest:
+		msg = &pb.EnableTableResponse{ProcId: proto.Uint64(newProc())}
+	case *pb.DisableTableRequest:
+		msg = &pb.DisableTableResponse{ProcId: proto.Uint64(newProc())}
+	case *pb.GetProcedureResultRequest:
+		c.mu.Lock()
+		n, ok := c.procs[p.GetProcId()]
+		if ok {
+			c.procs[p.GetProcId()] = n + 1
+		}
+		polls, outcome := c.ProcPolls, c.ProcOutcome
+		c.mu.Unlock()
+		c.Trace.Emit("procPoll", "proc", int(p.GetProcId()), "n", n+1)
+		switch {
+		case !ok:
+			msg = &pb.GetProcedureResultResponse{State: pb.GetProcedureResultResponse_NOT_FOUND.Enum()}
+		case n < polls:
+			msg = &pb.GetProcedureResultResponse{State: pb.GetProcedureResultResponse_RUNNING.Enum()}
+		case outcome == "exception":
+			msg = &pb.GetProcedureResultResponse{State: pb.GetProcedureResultResponse_FINISHED.Enum(),
+				Exception: &pb.ForeignExceptionMessage{GenericException: &pb.GenericExceptionMessage{ClassName: proto.String("org.apache.hadoop.hbase.TableExistsException"), Message: proto.String("simulated")}}}
+		default:
+			msg = &pb.GetProcedureResultResponse{State: pb.GetProcedureResultResponse_FINISHED.Enum()}
+		}
+	case *pb.GetTableNamesRequest:
+		r := &pb.GetTableNamesResponse{}
+		c.mu.Lock()
+		seen := map[string]bool{}
+		for _, reg := range c.Regions {
+			if !seen[reg.Table] {
+				seen[reg.Table] = true
+				r.TableNames = append(r.TableNames, &pb.TableName{Namespace: []byte("default"), Qualifier: []byte(reg.Table)})
+			}
+		}
+		c.mu.Unlock()
+		msg = r
+	case *pb.MoveRegionRequest:
+		msg = &pb.MoveRegionResponse{}
+	case *pb.SetBalancerRunningRequest:
+		msg = &pb.SetBalancerRunningResponse{PrevBalanceValue: proto.Bool(true)}
+	default:
+		c.sendExc(sc, req, ExcDoNotRetry)
+		return
+	}
+	c.Trace.Emit("resp", "conn", sc.ID, "id", int(req.CallID), "exc", "")
+	c.send(sc, req, Response{CallID: req.CallID, Msg: msg})
 }
 
 func (c *Cluster) send(sc *ServerConn, req *Request, resp Response) {
